@@ -97,7 +97,8 @@ fn run(args: &[String]) -> (i32, String, String) {
     }
 }
 
-/// correspondence unit: the -o bytes of the real binary vs the model's rendering (length + FNV-1a)
+/// correspondence unit: the -o bytes of the real binary vs the model's rendering (length + FNV-1a of the
+/// bytes and of the canonical form of the decoded value)
 pub fn unit_cli(o: &mut Out, tier: &str, r: &mut Rng) {
     let n = sz!(tier, 40, 400);
     let dir = scratch();
@@ -121,7 +122,15 @@ pub fn unit_cli(o: &mut Out, tier: &str, r: &mut Rng) {
                         if err.contains("panicked") { "PANIC".to_string() } else { format!("EXIT {}", code) }
                     } else {
                         match std::fs::read(&out) {
-                            Ok(b) => format!("{} {:016x}", b.len(), fnv1a(&b)),
+                            Ok(b) => {
+                                // the bytes, and the canonical form of the value they decode to (compact,
+                                // keys in byte order): a differently formatted file still decodes to the same result
+                                let canon = serde_json::from_slice::<serde_json::Value>(&b).ok().and_then(|v| serde_json::to_vec(&v).ok());
+                                match canon {
+                                    Some(c) => format!("J {} {:016x} {} {:016x}", b.len(), fnv1a(&b), c.len(), fnv1a(&c)),
+                                    None => format!("J {} {:016x} 0 NOTJSON", b.len(), fnv1a(&b)),
+                                }
+                            }
                             Err(_) => "NOFILE".into(),
                         }
                     };
